@@ -258,6 +258,7 @@ where
         let mut prods_rules = vec![None; ast.prods.len()];
         let mut actions = vec![None; ast.prods.len()];
         let mut action_spans = vec![None; ast.prods.len()];
+        let mut prod_spans: Vec<Span> = ast.prods.iter().map(|prod| prod.prod_span).collect();
         let mut actiontypes = vec![None; rule_names.len()];
         let (start_name, _) = ast.start.as_ref().unwrap();
         for (astrulename, _) in &rule_names {
@@ -282,6 +283,8 @@ where
                 prod_precs.push(Some(None));
                 prods_rules.push(Some(ridx));
                 actions.push(None);
+                action_spans.push(None);
+                prod_spans.push(Span::new(0, 0));
                 continue;
             } else if implicit_start_rule.as_ref() == Some(astrulename) {
                 // Add the intermediate start rule (handling implicit tokens at the beginning of
@@ -294,6 +297,9 @@ where
                 ]));
                 prod_precs.push(Some(None));
                 prods_rules.push(Some(ridx));
+                actions.push(None);
+                action_spans.push(None);
+                prod_spans.push(Span::new(0, 0));
                 continue;
             } else if implicit_rule.as_ref() == Some(astrulename) {
                 // Add the implicit rule: ~: "IMPLICIT_TOKEN_1" ~ | ... | "IMPLICIT_TOKEN_N" ~ | ;
@@ -312,12 +318,18 @@ where
                     prods.push(Some(vec![Symbol::Token(token_map[t]), Symbol::Rule(ridx)]));
                     prod_precs.push(Some(None));
                     prods_rules.push(Some(ridx));
+                    actions.push(None);
+                    action_spans.push(None);
+                    prod_spans.push(Span::new(0, 0));
                 }
                 // Add an empty production
                 implicit_prods.push(PIdx(prods.len().as_()));
                 prods.push(Some(vec![]));
                 prod_precs.push(Some(None));
                 prods_rules.push(Some(ridx));
+                actions.push(None);
+                action_spans.push(None);
+                prod_spans.push(Span::new(0, 0));
                 continue;
             } else {
                 actiontypes[usize::from(ridx)] = ast.rules[astrulename].actiont.clone();
@@ -408,7 +420,7 @@ where
                 .map(|x| x.unwrap().into_boxed_slice())
                 .collect(),
             prod_precs: prod_precs.into_iter().map(Option::unwrap).collect(),
-            prod_spans: ast.prods.iter().map(|prod| prod.prod_span).collect(),
+            prod_spans: prod_spans.into_boxed_slice(),
             implicit_rule: implicit_rule.map(|x| rule_map[&x]),
             actions: actions.into_boxed_slice(),
             action_spans: action_spans.into_boxed_slice(),
